@@ -121,12 +121,21 @@ def run_ctor(ctx, p):
     d = dist(kind, bad)
     C = getattr(sm, cname)
     given_bad = bad if p.get('dtype') != 'float32' else bad32
+    if p.get('dtype') == 'object':
+        # plain numbers in an array of dtype object (what np.array of mixed Python numbers, a pandas column or a SymPy matrix
+        # evaluated to floats hands over): whether members are accepted in this form is not stated, non-members are still refused
+        given_bad = bad.astype(object)
     if p.get('layout'):        # the same values held as a frozen / non-contiguous / Fortran-ordered array or nested lists of NumPy scalars
         given_bad = gen.layout(given_bad, p['layout'])
     arg = containers(form, good, given_bad)
     sig = dict(api=cname, form=form, defect=p['defect'])
     if p.get('layout'):
         sig['layout'] = p['layout']
+    if p.get('dtype') == 'object':
+        sig['dtype'] = 'object'
+        if p['defect'] == 'none' or d <= BAND:
+            ctx.ood('ctor.reject')
+            return
     if p.get('dtype') == 'float32':
         sig['dtype'] = 'float32'
         if p['defect'] == 'none' or d <= BAND:
@@ -639,6 +648,8 @@ def run(ctx):
         if rng.random() < 0.2:
             bad, defect = (valid_member(rng, kind)[0] if cname not in ('Twist2', 'Twist3') else good), 'none'
         p = dict(cls=cname, form=form, good=good, bad=bad, kind=kind, defect=defect)
+        if rng.random() < 0.06 and defect != 'none':
+            p['dtype'] = 'object'
         if rng.random() < 0.12 and cname not in ('Twist2', 'Twist3') and defect != 'none':
             # single-precision arrays whose defect sits just above the band (a tolerance scaled by the dtype's eps would let them in)
             other, _ = valid_member(rng, kind)
